@@ -7,8 +7,12 @@ print("|---|---|---|")
 for d in sorted(glob.glob(os.path.join(root, "*"))):
     m = json.load(open(os.path.join(d, "meta.json")))
     r = (m.get("check_results") or {}).get("quick")
-    if r is None:
+    if m.get("superseded"):
+        res = "superseded by a fix commit (no longer breaking)"
+    elif r is None:
         res = "not run yet"
+    elif r.get("caught") is None:
+        res = r.get("note", "n/a")
     elif r["caught"]:
         res = "VIOLATION with failing input" if r["with_failing_input"] else "VIOLATION no-failing-input-found"
     else:
